@@ -91,6 +91,44 @@ def ins_model_check(scratch: Path, tier: str):
     return states, trans, n
 
 
+SCHED_CFG = """SPECIFICATION Spec
+CONSTANTS
+  Interval = {iv}
+  OnIteration = {on}
+  CkptOnTraining = {ct}
+  MaxIt = {maxit}
+  MaxTime = {maxt}
+  MaxStep = 2
+  MaxStops = 2
+CONSTRAINT Bounded
+INVARIANT LossBoundIt
+INVARIANT LossBoundTime
+INVARIANT LastSane
+INVARIANT FinalOnDisk
+PROPERTY LastMonotone
+PROPERTY NoSpuriousWrite
+PROPERTY ResumeKeeps
+CHECK_DEADLOCK FALSE
+"""
+
+
+def schedule_model_check(scratch: Path, tier: str):
+    """Schedule.tla: when checkpoint(periodic, force) writes, under kills, signals and resumes."""
+    states = n = 0
+    quick = tier == "quick"
+    for on in ("TRUE", "FALSE"):
+        for ct in (("FALSE",) if quick else ("TRUE", "FALSE")):
+            for iv in ((0, 3) if quick else (0, 1, 2, 3, 5)):
+                cfg = scratch / f"sched_{n}.cfg"
+                cfg.write_text(SCHED_CFG.format(iv=iv, on=on, ct=ct, maxit=5 if quick else 7,
+                                                maxt=8 if quick else 11))
+                res = run_tlc("Schedule", str(cfg), metadir=scratch / f"m_sched_{n}", workers=4, timeout=1200)
+                require_ok(res, f"Schedule.tla on={on} ckpt_on_training={ct} interval={iv}")
+                states += res.distinct
+                n += 1
+    return states, n
+
+
 SIM_CFG = """SPECIFICATION SimSpec
 CONSTANTS
   NLive = 10
@@ -163,6 +201,10 @@ def run_property(prop: str, tier: str, specs, *, level="model_checking", crash_i
         if predict_mid_ckpt:
             prediction = predict_ckpt_on_training(scratch)
             v.note(f"NestedSampler.tla with checkpoint_on_training inside the critical section + kill: {prediction}")
+        sched_states = sched_cfgs = 0
+        if prop == "C12":
+            sched_states, sched_cfgs = schedule_model_check(scratch, tier)
+            v.note(f"Schedule.tla: {sched_cfgs} configurations, {sched_states} states")
         n_scripted = 0
         if scripted:
             sspecs, n_sim = scripted_specs(scratch, tier, seed, v)
@@ -289,6 +331,9 @@ def run_property(prop: str, tier: str, specs, *, level="model_checking", crash_i
             "model_states": res.distinct, "model_bounds": bounds,
             "histories": len(hs), "processes": sum(len(h["codes"]) for h in hs),
             "flow_trainings_validated": n_trainings,
+            "schedule_model": {"configurations": sched_cfgs, "states": sched_states},
+            "checkpoint_calls_validated": sum(1 for p_ in packed for e_ in p_ if e_["ev"] == "ckpt_call")
+            + (sum(1 for p_ in ipacked for e_ in p_ if e_["ev"] == "ckpt_call") if ins_stats else 0),
             "spec_prediction_checkpoint_on_training": prediction,
             "scripted_behaviours_replayed": n_scripted, "scripted_replays_equal_to_spec": n_replay_ok,
             "histories_not_completed": len(crashed),
